@@ -4,6 +4,10 @@ package keystore
 
 import (
 	"errors"
+	"math/big"
+
+	"github.com/massnetorg/mass-core/pocec"
+	"massnet.org/mass/config"
 
 	"massnet.org/mass/poc/wallet/db"
 	"massnet.org/mass/poc/wallet/keystore/snacl"
@@ -263,7 +267,8 @@ func vsWallet(pass []byte, remark string) (*KeystoreManagerForPoC, *AddrManager)
 	vsStore = &vsStoreT{root: &vsBkt{name: ""}}
 	km := &vsBkt{name: "km"}
 	am := &vsBkt{name: vsAcct}
-	am.kvs = append(am.kvs, vsKV{string(remarkName), []byte(remark)}, vsKV{"mpriv", []byte{1, 2, 3}}, vsKV{"cpriv", []byte{4, 5, 6}})
+	am.kvs = append(am.kvs, vsKV{string(remarkName), []byte(remark)}, vsKV{"mpriv", []byte{1, 2, 3}}, vsKV{"cpriv", []byte{4, 5, 6}},
+		vsKV{string(externalChildNumName), []byte{1, 0, 0, 0}}, vsKV{string(internalChildNumName), []byte{0, 0, 0, 0}})
 	am.subs = append(am.subs, &vsBkt{name: "pubkeys", kvs: []vsKV{{"k0", []byte{9}}}})
 	ids := &vsBkt{name: "ids", kvs: []vsKV{{vsAcct, []byte(vsAcct)}}}
 	km.subs = append(km.subs, am, ids)
@@ -292,3 +297,50 @@ func vsWallet(pass []byte, remark string) (*KeystoreManagerForPoC, *AddrManager)
 	}
 	return kmc, a
 }
+
+// ---- key derivation by contract (used where a harness is about bookkeeping, locking or atomicity, not about keys) ----
+
+var vsIssued int
+
+// contract of AddrManager.nextAddresses: under a.mu, derive n fresh addresses, advance the branch counter in the
+// transaction, return the managed addresses (no in-memory map update: that is updateManagedAddress's job)
+func vsNextAddresses(a *AddrManager, tx db.DBTransaction, internal bool, n uint32, net *config.Params) ([]*ManagedAddress, error) {
+	a.mu.Lock()
+	defer a.mu.Unlock()
+	am := tx.FetchBucket(a.storage)
+	next, err := getChildNum(am, internal)
+	if err != nil {
+		return nil, err
+	}
+	var out []*ManagedAddress
+	names := []string{"addr-a", "addr-b", "addr-c"}
+	for i := uint32(0); i < n && int(i) < len(names); i++ {
+		branch := ExternalBranch
+		if internal {
+			branch = InternalBranch
+		}
+		out = append(out, &ManagedAddress{pubKey: &pocec.PublicKey{X: big.NewInt(int64(7 + vsIssued)), Y: big.NewInt(2)}, address: names[vsIssued%3], keystoreName: a.keystoreName,
+			derivationPath: DerivationPath{Account: 0, Branch: uint32(branch), Index: next + i}})
+		vsIssued++
+	}
+	if err := updateChildNum(am, internal, next+n); err != nil {
+		return nil, err
+	}
+	return out, nil
+}
+
+func vsSerializeCompressed(p *pocec.PublicKey) []byte {
+	out := make([]byte, 33)
+	out[0] = byte(p.Y.Int64())
+	p.X.FillBytes(out[1:])
+	return out
+}
+
+func vsParsePubKey(b []byte, c *pocec.KoblitzCurve) (*pocec.PublicKey, error) {
+	if len(b) != 33 {
+		return nil, errors.New("bad pubkey")
+	}
+	return &pocec.PublicKey{Curve: c, X: new(big.Int).SetBytes(b[1:]), Y: big.NewInt(int64(b[0]))}, nil
+}
+
+func vsS256() *pocec.KoblitzCurve { return nil }
